@@ -65,7 +65,7 @@ def check(ctx, run):
     run.rule("R2", "null-check before use: the result of a may-return-NULL allocation is not dereferenced, indexed or used as a memcpy/memset destination without a dominating null test", floor=6)
     run.rule("R3", "failure leaves tracking intact: no path of reallocMemory returns NULL for a failed platform realloc after the block's record was removed", floor=1)
     run.rule("R4", "operator new family (SIBLING): throwing variants throw on a NULL result, nothrow variants never throw", floor=18)
-    run.rule("R5", "layout: the aligned size is a multiple of sizeof(void*), at least size + guard bytes, for every residue and at the 2^32 / 2^63 boundaries; record offset and requested size come from the same function of the same size in alloc, realloc and lookup", floor=40, exhaustive=True)
+    run.rule("R5", "layout: the aligned size is a multiple of sizeof(void*), at least size + guard bytes, for every residue and at the 2^32 / 2^63 boundaries; the allocation and reallocation paths folded over a heap model place guard bytes and record inside the requested block without overlap; lookup offset = placement offset", floor=40, exhaustive=True)
     run.rule("R6", "calloc zero-fills exactly the product under a null test; strdup_alloc copies size bytes into a size-byte block and terminates at size-1 with size >= 1", floor=5)
 
     INL = {DET + "::allocateMemoryWithAccountingInformation", DET + "::reallocateMemoryWithAccountingInformation", DET + "::sizeOfMemoryWithCorruptionInfo",
@@ -174,46 +174,110 @@ def check(ctx, run):
         ok = isinstance(got, int) and got % 8 == 0 and got >= s + guard and got <= s + guard + 8 and not getattr(ev, "wraps", None)
         run.ob("R5", "aligned size for %d" % s, so.site, ok, witness={"folded": got, "size+guard": s + guard},
                what="" if ok else "the bookkeeping offset for a %d-byte block is %s: guard bytes or record do not fit, or the offset is not pointer-aligned" % (s, got))
+    # whole allocation / reallocation paths folded over a heap model: where the guard bytes and the record land
+    DINL = ({g.qn for g in prog.functions.values() if g.qn.startswith(DET + "::")} | {"MemoryLeakDetectorNode::init", "calculateVoidPointerAlignedSize"})
+    M, N, OLD, OLDNODE = 70000, 90000, 50000, 6000
+
+    def fold_layout(f, size, sep, realloc, mem_result=M, node_result=N):
+        seq = []
+        pn = [p["name"] for p in f.params]
+        env = dict(zip(pn, (9000, OLD, size, 111000, 77, sep) if realloc else (9000, size, 111000, 77, sep)))
+        env.update({"allocationSequenceNumber_": 41, "current_period_": 3, "current_allocation_stage_": 7})
+
+        def h(name, ret):
+            return lambda *a_: (seq.append((name, a_)), ret)[1]
+        ev = Evaluator(prog, f, env=env, calls={
+            "TestMemoryAllocator::alloc_memory": h("alloc", mem_result), "PlatformSpecificRealloc": h("realloc", mem_result),
+            "TestMemoryAllocator::allocMemoryLeakNode": h("allocnode", node_result), "TestMemoryAllocator::free_memory": h("free", 0),
+            "TestMemoryAllocator::freeMemoryLeakNode": h("freenode", 0),
+            "MemoryLeakDetectorTable::addNewNode": h("add", 0), "MemoryLeakDetectorTable::removeNode": h("remove", OLDNODE),
+            DET + "::addMemoryCorruptionInformation": h("guard", 0), DET + "::checkForCorruption": h("check", 0)})
+        ev.heap_mode = True
+        ev.inline = DINL - set(ev.calls)
+        ev.run_blocks(f.entry, max_steps=3000)
+        r = getattr(ev, "ret", None)
+        if isinstance(r, tuple):
+            raise Unknown(str(r))
+        heap = {k: v for k, v in ev.env.items() if k.startswith("@")}
+        return r, seq, heap
+    for f, realloc in ((am, False), (rm, True)):
+        bad, ncase = None, 0
+        for sep in (0, 1):
+            for size in list(range(0, 18)) + [100, 4093, (1 << 32) + 3]:
+                ncase += 1
+                try:
+                    r, seq, heap = fold_layout(f, size, sep, realloc)
+                except Unknown as u:
+                    run.broke("C05.R5: %s cannot be folded for size %d: %s" % (f.qn, size, u))
+                    break
+                kinds = [k for k, a_ in seq]
+                req = [a_ for k, a_ in seq if k == ("realloc" if realloc else "alloc")]
+                why = ""
+                if len(req) != 1:
+                    why = "the underlying allocator is asked %d times" % len(req)
+                else:
+                    R_ = req[0][1] if realloc else req[0][0]
+                    guards = [a_[-1] for k, a_ in seq if k == "guard"]
+                    adds = [a_[-1] for k, a_ in seq if k == "add"]
+                    if realloc and req[0][0] != OLD:
+                        why = "realloc is applied to %s, not to the caller's block" % (req[0][0],)
+                    elif guards != [M + size]:
+                        why = "guard bytes written at %s, the user area ends at block + %d" % ([g - M for g in guards], size)
+                    elif M + size + guard > M + R_:
+                        why = "guard bytes end at offset %d of a %d-byte block" % (size + guard, R_)
+                    elif len(adds) != 1:
+                        why = "the record is entered into the table %d times" % len(adds)
+                    else:
+                        node = adds[0]
+                        if sep:
+                            an = [a_ for k, a_ in seq if k == "allocnode"]
+                            if node != N or len(an) != 1 or an[0][-1] != nodesz:
+                                why = "separate layout: the record is %s, allocMemoryLeakNode was asked %s (record size %d)" % (node, [a_[-1] for a_ in an], nodesz)
+                        else:
+                            if not (M + size + guard <= node and node + nodesz <= M + R_ and (node - M) % 8 == 0):
+                                why = "inline layout: the record occupies [%d, %d) of a %d-byte block whose user area and guard end at %d" % (node - M, node - M + nodesz, R_, size + guard)
+                            elif "allocnode" in kinds:
+                                why = "inline layout allocates a separate record as well"
+                        if not why:
+                            rec = {k.split(".")[1]: v for k, v in heap.items() if k.startswith("@%d." % node)}
+                            if rec.get("memory_") != M or rec.get("size_") != size or r != M:
+                                why = "the record describes block %s of %s bytes, the caller gets %s (expected %d, %d, %d)" % (rec.get("memory_"), rec.get("size_"), r, M, size, M)
+                if why and bad is None:
+                    bad = "size %d, %s record: %s" % (size, "separate" if sep else "inline", why)
+        run.ob("R5", "%s folded over a heap model (%d sizes x both layouts): one request; guard bytes directly behind the user area and inside the block; inline record pointer-aligned behind the guard and inside the block, separate record from allocMemoryLeakNode(sizeof record); the record describes (block, size); the block is returned" % (f.name, ncase // 2),
+               f.site, bad is None, witness=bad or "%d cases" % ncase, what=bad or "")
+    # lookup side: getNodeFromMemoryPointer agrees with the inline offset used above for every size
     gn = prog.fn(DET + "::getNodeFromMemoryPointer")
-    rets = [render(gn, gn.node(n.get("value")), keep_explicit_casts=False) for n in gn.walk() if n["k"] == "ReturnStmt"]
-    pnn = [p["name"] for p in gn.params]
-    run.ob("R5", "the record lives at memory + sizeOfMemoryWithCorruptionInfo(size)", gn.site, rets == ["(%s + sizeOfMemoryWithCorruptionInfo(%s))" % (pnn[0], pnn[1])], witness=rets)
-    for f in (prog.fn(DET + "::allocateMemoryWithAccountingInformation"), prog.fn(DET + "::reallocateMemoryWithAccountingInformation")):
-        run.analysed(f)
-        sz = f.params[1 if "reallocate" not in f.name else 2]["name"]
-        okp = True
-        wit = []
-        for p in enumerate_paths(f):
-            sep = p.val().get(f.params[-1]["name"])
-            r = render(f, f.node(p.ret.get("value")), keep_explicit_casts=False) if p.ret is not None else ""
-            wit.append({"separate": sep, "returns": r})
-            inner = "sizeOfMemoryWithCorruptionInfo(%s)" % sz
-            if sep is True and ("(%s + sizeof(MemoryLeakDetectorNode))" % inner) in r:
-                okp = False
-            if sep is False and ("(%s + sizeof(MemoryLeakDetectorNode))" % inner) not in r:
-                okp = False
-            if inner not in r:
-                okp = False
-        run.ob("R5", "%s requests sizeOf(size) plus the record only in the inline layout" % f.name, f.site, okp, witness=wit)
-    for f in (am, prog.fn(DET + "::reallocateMemoryAndLeakInformation")):
-        run.analysed(f)
-        cs = [render(f, c) for c in f.calls() if "createMemoryLeakAccountingInformation" in render(f, c)]
-        szn = [p["name"] for p in f.params if p["name"] == "size"]
-        ok = len(cs) == 1 and re.match(r"^createMemoryLeakAccountingInformation\(allocator, size, \w+, allocatNodesSeperately\)$", cs[0]) is not None
-        run.ob("R5", "%s locates the record with the same size it allocated with" % f.name, f.site, ok, witness=cs)
-    cm = prog.fn(DET + "::createMemoryLeakAccountingInformation")
-    okc = True
-    for p in enumerate_paths(cm):
-        sep = p.val().get(cm.params[-1]["name"])
-        r = render(cm, cm.node(p.ret.get("value")), keep_explicit_casts=False) if p.ret is not None else ""
-        if sep is False and r != "getNodeFromMemoryPointer(%s, %s)" % (cm.params[2]["name"], cm.params[1]["name"]):
-            okc = False
-        if sep is True and "allocMemoryLeakNode(sizeof(MemoryLeakDetectorNode))" not in r:
-            okc = False
-    run.ob("R5", "inline record = getNodeFromMemoryPointer(memory, size); separate record = allocMemoryLeakNode(sizeof(record))", cm.site, okc)
-    sl = prog.fn(DET + "::storeLeakInformation")
-    cs = [render(sl, c) for c in sl.calls() if "addMemoryCorruptionInformation" in render(sl, c)]
-    run.ob("R5", "guard bytes are written at memory + size", sl.site, cs == ["addMemoryCorruptionInformation((node->memory_ + node->size_))"], witness=cs)
+    run.analysed(gn)
+    badg = None
+    for size in list(range(0, 18)) + [100, 4093]:
+        ev = Evaluator(prog, gn, env={gn.params[0]["name"]: M, gn.params[1]["name"]: size})
+        ev.heap_mode = True
+        ev.inline = DINL
+        try:
+            ev.run_blocks(gn.entry, max_steps=300)
+            got = getattr(ev, "ret", None)
+            r, seq, heap = fold_layout(am, size, 0, False)
+            want = [a_[-1] for k, a_ in seq if k == "add"][0]
+        except (Unknown, IndexError) as u:
+            run.broke("C05.R5: getNodeFromMemoryPointer cannot be folded for size %d: %s" % (size, u))
+            break
+        if got != want and badg is None:
+            badg = "size %d: lookup computes block + %s, allocation placed the record at block + %d" % (size, got - M if isinstance(got, int) else got, want - M)
+    run.ob("R5", "getNodeFromMemoryPointer(block, size) is where the allocation path placed the inline record, for every size folded", gn.site, badg is None, witness=badg or "20 sizes", what=badg or "")
+    # failure paths
+    for f, realloc in ((am, False),):
+        try:
+            r, seq, heap = fold_layout(f, 13, 0, realloc, mem_result=0)
+            ok1 = r == 0 and not [k for k, a_ in seq if k in ("add", "guard")] and not heap
+            r2, seq2, heap2 = fold_layout(f, 13, 1, realloc, node_result=0)
+            fr = [a_ for k, a_ in seq2 if k == "free"]
+            ok2 = r2 == 0 and not [k for k, a_ in seq2 if k in ("add", "guard")] and len(fr) == 1 and fr[0][:2] == (M, 13) and not heap2
+        except Unknown as u:
+            run.broke("C05.R5: failure path of %s cannot be folded: %s" % (f.qn, u))
+            continue
+        run.ob("R5", "%s folded with a failing allocator: NULL is returned, nothing is written or entered" % f.name, f.site, ok1, witness=seq)
+        run.ob("R5", "%s folded with a failing record allocation (separate layout): the block is released with its size, NULL is returned, nothing is written through the NULL record" % f.name, f.site, ok2, witness=[(k, a_[:2]) for k, a_ in seq2])
 
     # ---------------- R2 ----------------------------------------------------
     targets = [("strdup_alloc", ("cpputest_malloc_location",)), ("cpputest_calloc_location", ("cpputest_malloc_location",)),
@@ -272,45 +336,82 @@ def check(ctx, run):
         run.analysed(f)
         nothrow = bool(f.d.get("nothrow"))
         throws = [n for n in f.walk() if n["k"] == "CXXThrowExpr"]
+        # folded with the detector's allocation answering NULL / a block
+        outcome = {}
+        for res in (0, 70000):
+            ev = Evaluator(prog, f, env={q["name"]: 5 + i for i, q in enumerate(f.params)}, calls={DET + "::allocMemory": lambda *a_, res=res: res, "PlatformSpecificMalloc": lambda *a_, res=res: res})
+            try:
+                end, _ = ev.run_blocks(f.entry, max_steps=400)
+                rv = getattr(ev, "ret", None)
+                outcome[res] = "throws" if end == "throw" else ("unknown: %s" % (rv,) if isinstance(rv, tuple) else "returns %s" % (rv,))
+            except Unknown as u:
+                outcome[res] = "unknown: %s" % u
+        if any(o.startswith("unknown") for o in outcome.values()):
+            run.broke("C05.R4: %s cannot be folded: %s" % (f.qn, outcome))
+            continue
         if nothrow:
-            ok = not throws
-            why = "" if ok else "a nothrow operator new variant throws"
+            ok = outcome == {0: "returns 0", 70000: "returns 70000"}
+            why = "" if ok else "a nothrow operator new variant %s for a NULL result and %s for a block" % (outcome[0], outcome[70000])
         else:
-            ok = False
-            why = "no path throws when the allocation result is NULL: the throwing form of operator new would return NULL"
-            for p in enumerate_paths(f):
-                v = p.val()
-                if p.end == "throw" and (v.get("memory") is False or v.get("(NULL == memory)") is True):
-                    ok, why = True, ""
-            # and never returns a NULL result on a path where memory is NULL
-            for p in enumerate_paths(f):
-                v = p.val()
-                if p.end == "return" and v.get("memory") is False:
-                    ok, why = False, "returns although the allocation result is NULL"
-        run.ob("R4", "%s (%s)" % (f.qn, "nothrow" if nothrow else "throwing"), f.site, ok, witness={"throw_expressions": len(throws)}, what=why)
+            ok = outcome == {0: "throws", 70000: "returns 70000"}
+            why = "" if ok else ("no path throws when the allocation result is NULL: the throwing form of operator new %s" % outcome[0] if outcome[0] != "throws" else "a successful allocation %s" % outcome[70000])
+        run.ob("R4", "%s (%s)" % (f.qn, "nothrow" if nothrow else "throwing"), f.site, ok, witness={"throw_expressions": len(throws), "folded": {str(k): v for k, v in outcome.items()}}, what=why)
     if n4 < 18:
         run.broke("only %d operator new implementations found in the slots (18 confirmed by hand)" % n4)
 
     # ---------------- R6 ----------------------------------------------------
-    ms = [render(cal, c) for c in cal.calls() if (prog.callee_name(cal, c) or "") == "PlatformSpecificMemset"]
-    mal = [render(cal, c) for c in cal.calls() if (prog.callee_name(cal, c) or "") == "cpputest_malloc_location"]
-    ok = len(ms) == 1 and len(mal) == 1 and re.match(r"^PlatformSpecificMemset\(mem, 0, \(%s \* %s\)\)$" % (pn[0], pn[1]), ms[0]) is not None and mal[0].startswith("cpputest_malloc_location((%s * %s)," % (pn[0], pn[1]))
-    run.ob("R6", "calloc zero-fills exactly the allocated product", cal.site, ok, witness={"memset": ms, "malloc": mal})
+    badc = None
+    for num, size, res in ((3, 7, 70000), (1, 1, 70000), (0, 5, 70000), (5, 0, 70000), (16, 4096, 70000), (3, 7, 0)):
+        seq = []
+        ev = Evaluator(prog, cal, env={pn[0]: num, pn[1]: size, pn[2]: 1, pn[3]: 2}, calls={
+            "cpputest_malloc_location": lambda *a_, res=res: (seq.append(("malloc", a_)), res)[1],
+            "PlatformSpecificMemset": lambda *a_: (seq.append(("memset", a_)), a_[0])[1]})
+        try:
+            ev.run_blocks(cal.entry, max_steps=200)
+            r = getattr(ev, "ret", None)
+        except Unknown as u:
+            run.broke("C05.R6: calloc cannot be folded: %s" % u)
+            break
+        want = [("malloc", (num * size, 1, 2))] + ([("memset", (res, 0, num * size))] if res else [])
+        if (seq != want or r != res) and badc is None:
+            badc = "calloc(%d, %d) with malloc answering %s: folded %s -> %s, expected %s" % (num, size, res, seq, r, want)
+    run.ob("R6", "calloc folded: allocates num*size bytes, zero-fills exactly those bytes of the block it got, touches nothing when the allocation failed", cal.site, badc is None, witness=badc or "6 cases", what=badc or "")
     sd = prog.fn("strdup_alloc")
     run.analysed(sd)
     spn = [p["name"] for p in sd.params]
-    mal = [render(sd, c) for c in sd.calls() if (prog.callee_name(sd, c) or "") == "cpputest_malloc_location"]
-    cp = [render(sd, c, keep_explicit_casts=False) for c in sd.calls() if (prog.callee_name(sd, c) or "") == "PlatformSpecificMemCpy"]
-    a = [(l, render(sd, r)) for l, r, n in assignments(sd)]
-    ok = mal == ["cpputest_malloc_location(%s, %s, %s)" % (spn[1], spn[2], spn[3])] and cp == ["PlatformSpecificMemCpy(result, %s, %s)" % (spn[0], spn[1])] and ("result[(%s - 1)]" % spn[1], "'\\x00'") in a
-    run.ob("R6", "strdup_alloc copies size bytes into a size-byte block and terminates at size-1", sd.site, ok, witness={"malloc": mal, "copy": cp, "assign": a})
-    for fn_, shape in (("cpputest_strdup_location", r"^\(1 \+ test_harness_c_strlen\(str\)\)$"), ("cpputest_strndup_location", None)):
+    bads = None
+    for size, res in ((1, 70000), (6, 70000), (100, 70000), (6, 0)):
+        seq = []
+        ev = Evaluator(prog, sd, env={spn[0]: 30000, spn[1]: size, spn[2]: 1, spn[3]: 2}, calls={
+            "cpputest_malloc_location": lambda *a_, res=res: (seq.append(("malloc", a_)), res)[1],
+            "PlatformSpecificMemCpy": lambda *a_: (seq.append(("memcpy", a_)), a_[0])[1]})
+        ev.heap_mode = True
+        try:
+            ev.run_blocks(sd.entry, max_steps=200)
+            r = getattr(ev, "ret", None)
+        except Unknown as u:
+            run.broke("C05.R6: strdup_alloc cannot be folded: %s" % u)
+            break
+        st = [(k, v) for k, v in ev.stores if k.startswith("@")]
+        want = [("malloc", (size, 1, 2))] + ([("memcpy", (res, 30000, size))] if res else [])
+        wst = [("@%d[%d]" % (res, size - 1), 0)] if res else []
+        if (seq != want or st != wst or r != res) and bads is None:
+            bads = "strdup_alloc(size %d) with malloc answering %s: folded %s, stores %s -> %s; expected %s, %s" % (size, res, seq, st, r, want, wst)
+    run.ob("R6", "strdup_alloc folded: copies size bytes into a size-byte block and terminates at size-1; nothing is written when the allocation failed", sd.site, bads is None, witness=bads or "4 cases", what=bads or "")
+    for fn_, shape in (("cpputest_strdup_location", True), ("cpputest_strndup_location", None)):
         f = prog.fn(fn_)
         run.analysed(f)
         if shape:
-            ini = {k: render(f, v) for k, v in local_inits(f).items()}
-            ok = any(re.match(shape, v) for v in ini.values())
-            run.ob("R6", "%s allocates strlen + 1 bytes (size >= 1)" % fn_, f.site, ok, witness=ini)
+            for L in (0, 1, 5, 1000):
+                got = []
+                ev = Evaluator(prog, f, env={f.params[0]["name"]: 1, f.params[1]["name"]: 2, f.params[2]["name"]: 3}, calls={
+                    "test_harness_c_strlen": lambda s_, L=L: L, "strdup_alloc": lambda s_, size, *a_: (got.append(size), 0)[1]})
+                try:
+                    ev.run_blocks(f.entry)
+                    g = got[0] if got else None
+                except Unknown as u:
+                    g = "unknown: %s" % u
+                run.ob("R6", "strdup(strlen=%d) allocates %d bytes (size >= 1)" % (L, L + 1), f.site, g == L + 1, witness={"folded": g})
         else:
             # fold: length = min(strlen, n) + 1 for representative (strlen, n) incl. n = SIZE_MAX
             for L, n in ((0, 0), (5, 3), (5, 5), (5, 9), (5, SIZE_MAX), (0, SIZE_MAX), (7, SIZE_MAX - 1)):
